@@ -297,7 +297,18 @@ type sample struct {
 
 // measured runs f while a monitor goroutine enforces the envelope online.
 func measured(c *core.Child, what string, tokens int, detail string, f func()) uint64 {
+	return measuredWithin(c, what, tokens, 0, detail, f)
+}
+
+// measuredWithin: as measured, with an additional online bound derived from
+// the previous (smaller) size of the same family: growing faster than
+// (N2/N1)^3.3 is the violation the exponent clause states, so there is no
+// point in waiting for an exponential run to finish before reporting it.
+func measuredWithin(c *core.Child, what string, tokens int, growthLimit uint64, detail string, f func()) uint64 {
 	limit := uint64(envC * math.Pow(float64(tokens+8), 3))
+	if growthLimit > 0 && growthLimit < limit {
+		limit = growthLimit
+	}
 	base := verifhook.Total()
 	var done atomic.Bool
 	stop := make(chan struct{})
@@ -377,7 +388,23 @@ func run(c *core.Child) {
 				s.n, s.tokens = n, N
 				t0 := time.Now()
 				valid := false
-				s.steps[0] = measured(c, "ValidateDocument", N, detail, func() {
+				// online growth bound from the previous size (see measuredWithin)
+				growth := func(k int) uint64 {
+					prev := perM[m]
+					if len(prev) < 2 {
+						return 0
+					}
+					p := prev[len(prev)-1]
+					if p.tokens >= N {
+						return 0
+					}
+					base := float64(p.steps[k])
+					if base < 2000 {
+						base = 2000
+					}
+					return uint64(base * math.Pow(float64(N)/float64(p.tokens), 3.3) * 4)
+				}
+				s.steps[0] = measuredWithin(c, "ValidateDocument", N, growth(0), detail, func() {
 					valid = graphql.ValidateDocument(&fs.schema, doc, nil).IsValid
 				})
 				c.Eval(1)
@@ -392,13 +419,13 @@ func run(c *core.Child) {
 					if norm {
 						name = "PlanCache.Get(normalize)"
 					}
-					st := measured(c, name, N*3, detail, func() { pc.Get(&fs.schema, text, "") })
+					st := measuredWithin(c, name, N*3, growth(3), detail, func() { pc.Get(&fs.schema, text, "") })
 					s.steps[3] += st
 					c.Eval(1)
 				}
 				if f.exec {
 					var plan *graphql.Plan
-					s.steps[1] = measured(c, "PlanQuery", N, detail, func() {
+					s.steps[1] = measuredWithin(c, "PlanQuery", N, growth(1), detail, func() {
 						plan, _ = graphql.PlanQuery(&fs.schema, doc, "")
 					})
 					c.Eval(1)
@@ -406,7 +433,7 @@ func run(c *core.Child) {
 					// alternatives of one abstract field are met
 					fs.resolveTo = func(level int) int { return level % 3 }
 					before := verifhook.Snapshot()
-					s.steps[2] = measured(c, "Do", N*4, detail, func() {
+					s.steps[2] = measuredWithin(c, "Do", N*4, growth(2), detail, func() {
 						graphql.Do(graphql.Params{Schema: fs.schema, RequestString: text})
 					})
 					c.Eval(1)
